@@ -658,6 +658,10 @@ class ClientDriver(ReorgDriver):
                         conf = [x for x in got if 'fee' not in x]
                         mpp = sorted((x['tx_hash'], x['height'], x['fee']) for x in got if 'fee' in x)
                         if conf != exp_conf:
+                            # what the server reports to clients is what C02 is about, too
+                            self.violate('C02', 'reported.get_history', f'{c.name} {sh[:10]}: confirmed part of '
+                                         f'the reply has {len(conf)} entries, the chain implies {len(exp_conf)}',
+                                         [hx])
                             self.violate('C10', 'get_history.confirmed', f'{c.name} {sh[:10]}: '
                                          f'{len(conf)} entries, expected {len(exp_conf)}; first diff at '
                                          f'{next((j for j, (a, b) in enumerate(zip(conf, exp_conf)) if a != b), min(len(conf), len(exp_conf)))}', [hx])
@@ -668,6 +672,9 @@ class ClientDriver(ReorgDriver):
                     exp = dict(confirmed=ref.balance(hx), unconfirmed=refmp.balance_delta(hx))
                     if r is None or 'result' not in r or r['result']['confirmed'] != exp['confirmed'] or \
                             (mp_ok and r['result'] != exp):
+                        if r is not None and 'result' in r and r['result']['confirmed'] != exp['confirmed']:
+                            self.violate('C01', 'reported.balance', f'{c.name} {sh[:10]}: confirmed balance '
+                                         f'{r["result"]["confirmed"]}, the chain implies {exp["confirmed"]}', [hx])
                         self.violate('C10', 'get_balance', f'{c.name} {sh[:10]}: {r} expected {exp}', [hx])
                     r = self.ask(c, 'blockchain.scripthash.listunspent', [sh])
                     spent_by_mp = set()
@@ -689,6 +696,9 @@ class ClientDriver(ReorgDriver):
                         may = [x for x in exp_conf if (bytes.fromhex(x['tx_hash'])[::-1], x['tx_pos']) not in lo]
                         if [x for x in conf if x not in may] or [x for x in must if x not in conf] or \
                                 conf != [x for x in exp_conf if x in conf]:
+                            self.violate('C01', 'reported.listunspent', f'{c.name} {sh[:10]}: {len(conf)} confirmed '
+                                         f'entries; the chain and mempool imply between {len(must)} and '
+                                         f'{len(may)} in chain order', [hx])
                             self.violate('C10', 'listunspent.confirmed', f'{c.name} {sh[:10]}: {len(conf)} '
                                          f'entries; expected between {len(must)} and {len(may)} in chain order',
                                          [hx])
@@ -884,7 +894,34 @@ class SubsFamily(ReorgFamily):
                 ops.append(dict(op='mp_flicker', k=rng.randrange(8), at=at, gap=round(rng.uniform(0.0, 3.0), 3)))
             else:
                 ops.append(dict(op='mp_evict', k=rng.randrange(8), at=at))
+        if rng.random() < 0.15:
+            ops.append(self.rpc_race(rng))
         return ops
+
+    RPC_METHODS = ['getrawmempool', 'getrawmempool', 'getrawmempool', 'getblockcount', 'getblockcount',
+                   'getrawtransaction', 'getblockhash', 'rest']
+
+    def rpc_race(self, rng):
+        """A daemon-side change placed between two daemon calls of one server operation, optionally
+        followed by a slow round trip."""
+        then = []
+        for _ in range(rng.randint(1, 2)):
+            r = rng.random()
+            if r < 0.45:
+                then.append(dict(op='mine', n=1, ntx=[rng.randint(0, 4)], seed=rng.getrandbits(32),
+                                 confirm=rng.choice(['parents', 'parents', 0.5, 1.0, 0.0])))
+            elif r < 0.6:
+                then.append(dict(op='fork', depth=1, extra=1, ntx=ntx_list(rng, 2),
+                                 remine=rng.choice([0.0, 0.5, 1.0]), seed=rng.getrandbits(32)))
+            elif r < 0.8:
+                then.append(dict(op='mp_add', n=rng.randint(1, 3), chain=rng.choice([0.0, 0.9]),
+                                 seed=rng.getrandbits(32)))
+            else:
+                then.append(dict(op='mp_evict', k=rng.randrange(8)))
+        if rng.random() < 0.6:
+            then.append(dict(op='slow', method=rng.choice(self.RPC_METHODS),
+                             delay=rng.choice([2.0, 6.0, 12.0, 25.0])))
+        return dict(op='on_rpc', method=rng.choice(self.RPC_METHODS), skip=rng.randrange(3), then=then)
 
     def gen(self, rng, tier, prop):
         k, plan = self.base(rng, tier)
@@ -907,6 +944,21 @@ class SubsFamily(ReorgFamily):
                     plan.append(dict(op='settle'))
                 plan.append(dict(op='fork', depth=1, extra=1, ntx=[rng.randint(0, 3), 2], remine=0.0,
                                  at=round(rng.uniform(0, 3), 3), seed=rng.getrandbits(32)))
+                plan.append(dict(op='settle'))
+                continue
+            if rng.random() < 0.15:
+                # motif: parent and child in the mempool, a subscriber of the child's output script; a block
+                # confirming only the parent is found between the mempool listing and the height request of
+                # one refresh, and that height request is slow (the index reaches the block meanwhile)
+                plan.append(dict(op='mp_add', n=1, chain=0.0, seed=rng.getrandbits(32)))
+                plan.append(dict(op='mp_add', n=1, chain=1.0, seed=rng.getrandbits(32)))
+                plan.append(dict(op='c_sub_tx', c=rng.randrange(nclients), o=rng.randrange(4)))
+                if rng.random() < 0.7:
+                    plan.append(dict(op='settle'))
+                plan.append(dict(op='on_rpc', method='getrawmempool', skip=rng.randrange(2), then=[
+                    dict(op='mine', n=1, ntx=[rng.randint(0, 3)], seed=rng.getrandbits(32), confirm='parents'),
+                    dict(op='slow', method='getblockcount', delay=rng.choice([3.0, 8.0, 15.0, 30.0]))]))
+                plan.append(dict(op='wait', dt=rng.choice([8.0, 20.0, 45.0])))
                 plan.append(dict(op='settle'))
                 continue
             ops = self.chain_ops(rng, k, at_max) + self.client_ops(rng, nclients, at_max, k)
@@ -945,6 +997,8 @@ class MempoolFamily(SubsFamily):
                 else:
                     plan.append(dict(op='fork', depth=rng.choice([1, 2]), extra=1, ntx=[2, 3],
                                      remine=rng.choice([0.0, 1.0]), at=at, seed=rng.getrandbits(32)))
+            if races and rng.random() < 0.3:
+                plan.append(self.rpc_race(rng))
             if races and rng.random() < 0.5:
                 plan.append(dict(op='wait', dt=round(rng.uniform(0.5, 12.0), 2)))
             else:
